@@ -121,5 +121,45 @@ class TreeFamily:
                 for g in ops:
                     yield self.bi(op, f(), g())
 
+    def large(self) -> list[AObj]:
+        """Larger trees over six names: six-operand chains nested to either side, conjunctions of disjunctions, nesting
+        depth five with alternating sides and negations, a simple form buried under double negations, twelve operands
+        with repeated names - shapes on which a depth cap, an operand limit or a fast path for short constraints shows."""
+        t, un, bi = self.t, self.un, self.bi
+        ns = ["A", "B", "C", "D", "E", "F"]
+
+        def left(op: str, xs: list[Any]) -> AObj:
+            cur = xs[0]
+            for x in xs[1:]:
+                cur = bi(op, cur, x)
+            return cur
+
+        def right(op: str, xs: list[Any]) -> AObj:
+            cur = xs[-1]
+            for x in reversed(xs[:-1]):
+                cur = bi(op, x, cur)
+            return cur
+        T = lambda: [t(n) for n in ns]  # noqa: E731
+        out = [left("AND", T()), right("AND", T()), left("OR", T()), right("OR", T()),
+               bi("IMPLIES", left("AND", T()[:5]), t("F")), bi("IMPLIES", t("A"), right("OR", T()[1:])),
+               bi("IMPLIES", t("A"), right("AND", T()[1:])),
+               left("AND", [bi("OR", un(t("A")), t("B")), bi("OR", un(t("B")), t("C")), bi("OR", un(t("C")), t("D")),
+                            bi("OR", un(t("D")), t("E")), bi("OR", un(t("E")), un(t("F")))]),
+               right("OR", [bi("AND", t("A"), t("B")), bi("AND", t("C"), un(t("D"))), bi("AND", un(t("E")), t("F"))]),
+               un(left("OR", T())), un(right("AND", T())),
+               bi("OR", un(un(un(t("A")))), un(un(t("B")))), bi("IMPLIES", un(un(t("A"))), un(un(un(t("B"))))),
+               left("OR", [t(n) for n in ns + ns]), right("AND", [t(n) for n in ns + ns]),
+               bi("REQUIRES", t("E"), t("F")), bi("EXCLUDES", t("F"), t("D"))]
+        deep = t("F")
+        for i, op in enumerate(("AND", "OR", "IMPLIES", "AND", "OR")):
+            other = un(t(ns[i])) if i % 2 else t(ns[i])
+            deep = bi(op, other, deep) if i % 2 else bi(op, deep, other)
+        out.append(deep)
+        deep = un(t("A"))
+        for i, op in enumerate(("IMPLIES", "OR", "AND", "IMPLIES", "OR")):
+            deep = bi(op, t(ns[i + 1]), un(deep)) if i % 2 else bi(op, un(deep), t(ns[i + 1]))
+        out.append(deep)
+        return out
+
     def all(self, small: bool) -> list[AObj]:
         return list(self.depth1()) + list(self.depth2(small))
